@@ -146,11 +146,13 @@ func groupFoundations(c *Ctx, withAlias bool) {
 	}
 	run.Rule("SIB-duality", "Sub* formulas are the sign-dual of their Add* twins", 4)
 	esib.CheckDuality(run, p, "SIB-duality")
+	checkSumFolds(run.Rule("DT-sum", "point summation is a left fold of Add over all values that starts from the neutral element and returns the accumulator", 2), cfg)
 	checkSharedFresh(p, run.Rule("SHARED-fresh", "re-initialising an expanded point installs a fresh table", 2))
 	checkStaleCopies(p, run.Rule("STALE-copy", "a converted copy of an accumulator is never read after the accumulator it was converted from has been modified", 10), []string{"curve"})
 	if withAlias {
 		al := run.Rule("ALIAS", "point and scalar operations compute the same result when two same-typed pointer parameters denote one object", 100)
 		run.Sample(checkAliasing(al, p, []string{"curve", "curve/scalar"}))
+		checkAliasSlice(p, run.Rule("ALIAS-slice", "a function with an output *T and a slice of T / *T finishes reading the slice elements before it first writes the output (the output may be one of the elements)", 15), false)
 	}
 	skeletonFoundations(c)
 	// the constants and tables every primitive multiplies with (base points, d, 2d, sqrt(-1), the
@@ -259,7 +261,7 @@ func portableWidthRule(c *Ctx, id string) {
 	checkPortableWidth(c.Prog(id), pw)
 }
 
-// ownershipRules: INPUT-readonly and RETURN-fresh in the first configuration of the tier.
+// ownershipRules: INPUT-readonly, RETURN-fresh, INPUT-retain and RESULT-disjoint in the first configuration of the tier.
 func ownershipRules(c *Ctx) {
 	id := c.Configs()[0]
 	if !c.Preload(id) {
@@ -269,6 +271,9 @@ func ownershipRules(c *Ctx) {
 	p := c.Prog(id)
 	checkInputReadonly(p, c.Run.Rule("INPUT-readonly", "no exported function of a public package writes through an input parameter", 200), false)
 	checkReturnFresh(p, c.Run.Rule("RETURN-fresh", "byte slices returned by exported functions never alias the storage of the receiver or of a parameter", 20), false)
+	checkInputRetain(p, c.Run.Rule("INPUT-retain", "no exported function keeps a caller's byte slice in an object that outlives the call (directly or through a callee)", 80), false)
+	checkResultDisjoint(p, c.Run.Rule("RESULT-disjoint", "two byte-slice results of one exported function never share storage", 1), false)
+	checkReturnGlobal(p, c.Run.Rule("RETURN-global", "no exported function hands out a pointer or slice into a package-level variable (constants and tables stay out of the callers' reach)", 100), false)
 }
 
 // globalStoreRule: GLOBAL-store (the rule of C18) in one configuration: nothing writes memory
@@ -282,6 +287,8 @@ func globalStoreRule(c *Ctx, id string) {
 	run.SetConfig(id)
 	p := c.Prog(id)
 	gst := run.Rule("GLOBAL-store", "no store to memory rooted at a package-level variable outside package initialisation (directly or through a written call argument): constants and tables stay what they were decided to be", 400)
+	// ... and no API result gives a caller write access to them
+	checkReturnGlobal(p, run.Rule("RETURN-global", "no exported function hands out a pointer or slice into a package-level variable (constants and tables stay out of the callers' reach)", 100), false)
 	m := modFor(p)
 	byFn := map[string]bool{}
 	for _, w := range m.DirectGlobalWrites() {
